@@ -33,6 +33,12 @@ Calibration
   first, so the *value* shape differs between NumPy and dask's orthogonal reading.  Same mechanism as the C20
   finding; only scalar-like values are generated for such indices (the result then is well defined and equal).
 * NaN / inf into integer arrays and lossy casts are not generated (value dtype = array dtype).
+* Values with *extra leading size-1 axes* (x[0] = np.ones((1, 3))) are a NumPy assignment leniency, not
+  broadcasting to the selection shape; the statement says "broadcastable value", so they are not generated
+  (side observation while calibrating: dask accepts them without, and fails with, an integer index).
+* n-d NumPy boolean masks are not among the documented assignment indices (dask raises IndexError): rejected.
+* Labels of the where() path and of empty selections are built from direct predicates of the case instead of the
+  shrinker (the shrunk forms varied from seed to seed); value kinds are reduced to scalar | array.
 """
 from __future__ import annotations
 
@@ -68,10 +74,37 @@ CLAIM = ("Every generated assignment was executed on the real dask.array and on 
 LEVEL_NOTE = "NumPy is the reference; domain limited to the assignment indices dask documents"
 TECHNIQUE = "runtime monitoring: NumPy differential oracle over all chunkings of small arrays x index/value patterns and generated assignments"
 
-PENDING = {}
+PENDING = {
+    # same root cause as C20 (normalize_slice): fix proposed in findings_proposed/C20.md
+    "setitem:slice[negstep,start<-n]&value=scalar:values": "x[-6::-1] = v on n=4 assigns where NumPy selects nothing",
+    # integer index in front of other indices: positions in setitem_array are array dimensions where positions in
+    # implied_shape are needed.  Fix proposed in findings_proposed/C21.md
+    "setitem:int+slice[negstep]&value=scalar:IndexError@array/slicing.py:setitem_array": "x[3, ::-2] = 1 raises IndexError: tuple index out of range",
+    "setitem:int+slice[negstep]&value=array:values": "x[1, ::-1] = v on a 3-d array reverses the wrong value axis - silent",
+    "setitem:int+slice[negstep,|step|>1]&value=array:values": "same, |step| > 1 needed by the witness",
+    "setitem:int+int-list&value=array:TypeError@array/slicing.py:setitem_array": "x[0, [6, 5, 4]] = [..]: NoneType + NoneType",
+    "setitem:int+int-list[dup]&value=array:TypeError@array/slicing.py:setitem_array": "same on an axis of length 1 ([0, 0])",
+    "setitem:int+int-list&value=array:values": "same mechanism, wrong part of the value assigned - silent",
+    # 1-d dask boolean index inside a tuple, value of length 1 along that axis: later blocks are not assigned
+    "setitem:dask-bool-array&split-chunks&value=array:values": "x[da_mask, :] = v with v.shape[0] == 1: only the first block with a True is assigned - silent",
+    "setitem:dask-bool-array+int&split-chunks&value=array:values": "same with an integer index",
+    "setitem:Ellipsis+dask-bool-array+int&split-chunks&value=array:values": "same",
+    # empty selections
+    "setitem:empty-selection&value=array-with-axis-longer-than-1:ValueError@array/slicing.py:setitem_array": "x[:0, :] = np.ones((0, 7)) (or (7,)) raises; NumPy: no-op",
+    "setitem:empty-selection&value=zero-size-array:ValueError@array/slicing.py:setitem_array": "x[3:8:-1] = np.ones(0): negative implied size in parse_assignment_indices",
+    # where(mask, value, x) path
+    "setitem:whole-array-dask-mask[chunked-differently]:chunks-changed": "x[mask] = 0 with a dask mask chunked differently from x: x.chunks become the unified chunks",
+    "setitem:whole-array-dask-mask&value=1-element-array:ValueError@array/core.py:broadcast_shapes": "x[mask] = np.array([5]) raises (0-d works)",
+    "setitem:whole-array-dask-mask&value=1-element-array:TypeError@base.py:compute": "x[mask] = [5] fails at compute time",
+    "setitem:whole-array-dask-mask&value=1-element-array:values": "x[mask] = da.from_array([5]) assigns only part of the selection - silent",
+    "setitem:whole-array-dask-mask&value=1-element-array:ValueError@array/core.py:blockdims_from_blockshape": "same family",
+    "setitem:whole-array-dask-mask&value=1-element-array:TypeError@array/reshape.py:reshape_rechunk": "same family (zero-length axis)",
+    "setitem:tuple-wrapped-whole-array-dask-mask:IndexError@array/slicing.py:parse_assignment_indices": "x[(mask,)] = 0 raises where x[mask] = 0 works",
+    "setitem:tuple-wrapped-whole-array-dask-mask:values": "same, 1-d case",
+}
 
 DTYPES = ["int64", "int64", "float64", "float64", "int32", "float32", "complex128", "bool", "datetime64[ns]"]
-VMODES = ["scalar", "scalar", "npscalar", "np0d", "full", "full", "full", "trail", "ones", "lead1", "size1"]
+VMODES = ["scalar", "scalar", "npscalar", "np0d", "full", "full", "full", "trail", "trail", "ones", "ones", "size1"]
 VKINDS = ["np", "np", "list", "dask", "dask"]
 
 
@@ -104,7 +137,7 @@ PATTERNS_1D = [
     ([S()], "scalar", "np"), ([S()], "full", "np"), ([S()], "full", "dask"), ([S(1, 4)], "full", "np"), ([S(1, 4)], "size1", "np"),
     ([S(None, None, 2)], "full", "np"), ([S(None, None, -1)], "full", "np"), ([S(None, None, -1)], "full", "dask"),
     ([S(4, 0, -2)], "full", "np"), ([S(-2, None)], "full", "list"), ([S(3, 1)], "scalar", "np"), ([S(3, 1)], "full", "np"),
-    ([S(1, 5, 3)], "full", "np"), ([S(-1, -6, -1)], "full", "np"), ([S(-1, -6, -2)], "lead1", "np"),
+    ([S(1, 5, 3)], "full", "np"), ([S(-1, -6, -1)], "full", "np"), ([S(-1, -6, -2)], "size1", "np"),
     ([I(0)], "scalar", "np"), ([I(-1)], "np0d", "np"), ([I(3, "np")], "npscalar", "np"), ([I(2)], "np0d", "dask"),
     ([L([0, 2])], "full", "np"), ([L([4, 1])], "full", "np"), ([L([-1, 0, 2], "np")], "full", "np"), ([L([3, 3, 1])], "scalar", "np"),
     ([L([3, 1, 3])], "full", "np"), ([L([])], "scalar", "np"), ([L([4, 0, 2], "np")], "full", "dask"), ([L([1, 3], "dask")], "full", "np"),
@@ -118,7 +151,7 @@ PATTERNS_2D = [
     ([L([2, 0])], "full", "np"), ([L([2, 0]), I(1)], "full", "np"), ([S(), L([1, 0])], "full", "np"), ([S(), L([1, 0], "dask")], "full", "np"),
     ([S(2, 0, -1), L([1, 1, 0], "np")], "scalar", "np"), ([B([1, 0, 1])], "full", "np"), ([B([1, 0, 1], "dask")], "trail", "np"),
     ([S(), B([0, 1], "np")], "full", "dask"), ([ELL, I(0)], "full", "np"), ([I(2), ELL], "ones", "np"), ([I(2), I(1)], "scalar", "np"),
-    ([I(2), I(1)], "np0d", "dask"), ([S(1, 3), S(0, 1)], "ones", "np"), ([S(), S()], "trail", "dask"), ([S(), S()], "lead1", "np"),
+    ([I(2), I(1)], "np0d", "dask"), ([S(1, 3), S(0, 1)], "ones", "np"), ([S(), S()], "trail", "dask"), ([S(), S()], "ones", "np"),
     ([{"k": "mask", "seed": 5, "p": 0.5, "as": "dask", "c": None}], "npscalar", "np"),
     ([{"k": "mask", "seed": 6, "p": 1.1, "as": "dask", "c": None}], "scalar", "np"),
     ([{"k": "mask", "seed": 7, "p": 0.5, "as": "dask", "c": None}], "scalar", "np"),
@@ -364,6 +397,19 @@ def run_case(case, ctx):
         # empty negative-step slices
         vt = "array-with-axis-longer-than-1" if max(out.vshape) > 1 else "zero-size-array"
         label, detail = "setitem:empty-selection&value=%s:%s" % (vt, out.symptom), {}
+    elif where_path(enc, shape) and bare:
+        # direct mechanism predicates for the where(mask, value, x) path of Array.__setitem__
+        own = any((e.get("c") and tuple(tuple(c) for c in e["c"]) != chunks) if e["k"] == "mask" else
+                  (e["k"] == "blist" and tuple(e.get("c") or ()) != chunks[0]) for e in enc)
+        if out.symptom == "chunks-changed":
+            label = "setitem:whole-array-dask-mask[%s]:chunks-changed" % ("chunked-differently" if own else "same-chunks")
+        elif (out.vmode or vmode) not in SCALARLIKE:
+            label = "setitem:whole-array-dask-mask&value=1-element-array:" + out.symptom
+        else:
+            label = "setitem:whole-array-dask-mask&value=scalar:" + out.symptom
+        detail = {}
+    elif any(e["k"] == "mask" for e in enc) and not bare:
+        label, detail = "setitem:tuple-wrapped-whole-array-dask-mask:" + out.symptom, {}
     else:
         label, detail = classify(shape, chunks, case["dtype"], enc, bare, out.vmode or vmode, vkind, vseed, out.symptom)
     detail.update({"index": IX.show(enc), "shape": list(shape), "chunks": case["chunks"], "value": out.vdesc})
@@ -400,13 +446,7 @@ def classify(shape, chunks, dtype, enc, bare, vmode, vkind, vseed, sym):
     if sym_m not in MISMATCH_SYMPTOMS:
         enc_m, shape_m, chunks_m, sym_m = IX.shrink(enc_m, shape_m, chunks_m, probe, sym_m, accept=lambda s: s not in MISMATCH_SYMPTOMS)
     vm, vk = state["vmode"], state["vkind"]
-    vtok = "scalar" if vm in SCALARLIKE else {"full": "array", "size1": "size-1-array", "lead1": "array-with-extra-leading-1-axes"}.get(vm, "broadcast-array")
-    if vk == "dask" and vm not in ("scalar", "npscalar"):
-        vtok = "dask-" + vtok
-    elif vk == "list" and vm not in ("scalar", "npscalar", "np0d"):
-        vtok = "list-" + vtok
+    vtok = "scalar" if vm in SCALARLIKE else "array"
     feat = IX.label_features(enc_m, shape_m, chunks_m)
-    if not bare and any(e["k"] == "mask" for e in enc_m):
-        feat = feat.replace("full-shape-dask-mask", "tuple-wrapped-full-shape-dask-mask")
     label = "setitem:%s&value=%s:%s" % (feat, vtok, sym_m)
     return label, {"minimal": {"index": IX.show(enc_m), "shape": list(shape_m), "chunks": [list(c) for c in chunks_m], "vmode": vm, "vkind": vk}}
